@@ -134,6 +134,84 @@ pub fn remote_fault() -> Option<String> {
     if rc2 != Some(0) || tree(&env.dir.join("dst")) != reference { return Some("[pull] after a run with a failing remote end, running the same command again does not converge to the uninterrupted result (C09)".into()); }
     None
 }
+// ---- C04: a successful run delivers exactly its plan (bounded: one tree of awkward names, five flag sets, three directions) ----
+const NAMES: [&str; 15] = ["nl\ndir/inside.txt", "plain.txt", "with space.txt", "quote'single.txt", "dq\"double.txt", "back\\slash.txt", "dollar$HOME.txt", "star*glob?.txt",
+    "-leading-dash", "uni-\u{f8}-\u{6587}.txt", "new\nline.txt", "sub dir/nested file.txt", "sub dir/deep/x.log", ".hidden", "semi;colon&amp.txt"];
+pub fn flag_sets() -> Vec<Vec<&'static str>> {
+    vec![vec![], vec!["--delete"], vec!["--delete", "--exclude", "*.log"], vec!["--exclude", "sub dir"], vec!["--delete", "-j", "4"]]
+}
+/// one direction, one flag set; None = the destination is exactly what the plan says
+pub fn delivers_plan(dir: &str, fi: usize) -> Option<String> {
+    let env = Env::new(&format!("plan{dir}{fi}"))?;
+    let (sr, dr) = (env.dir.join("src"), env.dir.join("dst"));
+    let t0 = 1_650_000_000u64;
+    let wr = |root: &Path, rel: &str, c: &[u8], secs: u64| -> Option<()> { let f = root.join(rel); std::fs::create_dir_all(f.parent()?).ok()?; std::fs::write(&f, c).ok()?; std::fs::File::options().write(true).open(&f).ok()?.set_modified(std::time::UNIX_EPOCH + std::time::Duration::from_secs(secs)).ok() };
+    std::fs::create_dir_all(&sr).ok()?; std::fs::create_dir_all(&dr).ok()?;
+    for (i, n) in NAMES.iter().enumerate() {
+        let c = format!("source content of file {i}: {n}").into_bytes();
+        wr(&sr, n, &c, t0 + i as u64)?;
+        match i % 4 {
+            0 => {}                                                                    // absent at the destination
+            1 => { let mut same = c.clone(); same[0] ^= 0x20; wr(&dr, n, &same, t0 + i as u64)?; }   // same size + mtime, other bytes: the quick check skips it
+            2 => { wr(&dr, n, b"shorter", t0 + i as u64)?; }                           // different size
+            _ => { let mut same = c.clone(); same[1] ^= 0x20; wr(&dr, n, &same, t0 - 500)?; }        // same size, different mtime
+        }
+    }
+    for (i, n) in ["stale.txt", "stale new\nline", "sub dir/stale.log", "only here/old file"].iter().enumerate() { wr(&dr, n, format!("stale {i}").as_bytes(), t0 - 1000)?; }
+    let flags = flag_sets()[fi.min(flag_sets().len() - 1)].clone();
+    let excludes: Vec<String> = flags.iter().enumerate().filter(|(i, _)| *i > 0 && flags[i - 1] == "--exclude").map(|(_, x)| x.to_string()).collect();
+    let delete = flags.contains(&"--delete");
+    let stamp = |r: &Path| -> BTreeMap<String, (Vec<u8>, u64)> { tree(r).into_iter().map(|(p, b)| { let m = std::fs::metadata(r.join(&p)).and_then(|m| m.modified()).ok().and_then(|t| t.duration_since(std::time::UNIX_EPOCH).ok()).map(|d| d.as_secs()).unwrap_or(0); (p, (b, m)) }).collect() };
+    let (s0, d0) = (stamp(&sr), stamp(&dr));
+    // the plan, from the property statement (exclusion by the real, proved, is_excluded)
+    let ex = |p: &str| crate::plan::is_excluded(Path::new(p), &excludes);
+    let mut want = d0.clone();
+    for (p, (b, m)) in &s0 { if ex(p) { continue; } let send = match d0.get(p) { None => true, Some((b2, m2)) => b2.len() != b.len() || m2 != m }; if send { want.insert(p.clone(), (b.clone(), *m)); } }
+    if delete { for p in d0.keys() { if !s0.contains_key(p) && !ex(p) { want.remove(p); } } }
+    // run it, from a working directory that holds an innocent bystander
+    let cwd = env.dir.join("cwd"); std::fs::create_dir_all(&cwd).ok()?; std::fs::write(cwd.join("line"), b"bystander").ok()?; std::fs::write(cwd.join("stale.txt"), b"bystander").ok()?;
+    let b = std::env::var("COPIA_BIN").unwrap_or_default();
+    let mut args: Vec<String> = vec!["sync".into(), "-r".into()];
+    if !flags.contains(&"-j") { args.push("-j".into()); args.push("2".into()); }
+    args.extend(flags.iter().map(|x| x.to_string()));
+    let (ss, ds) = (sr.to_string_lossy().into_owned(), dr.to_string_lossy().into_owned());
+    match dir { "pull" => { args.push(format!("fakehost:{ss}")); args.push(ds); } "push" => { args.push(ss); args.push(format!("fakehost:{ds}")); } _ => { args.push(ss); args.push(ds); } }
+    let out = Command::new(b).args(&args).current_dir(&cwd).env("PATH", env.path_env()).env("RUST_BACKTRACE", "0").output().ok()?;
+    let tag = format!("[{dir}, flags {flags:?}]");
+    let shown = |p: &str| p.replace('\n', "\\n");
+    if out.status.code() != Some(0) { return Some(format!("{tag} a run over a tree of awkward names fails (exit {:?}): {} (C04)", out.status.code(), String::from_utf8_lossy(&out.stderr).lines().filter(|l| l.contains("FAIL") || l.contains("rror")).take(2).collect::<Vec<_>>().join(" | "))); }
+    let (s1, d1) = (stamp(&sr), stamp(&dr));
+    if s1 != s0 { return Some(format!("{tag} the source tree was modified (C04)")); }
+    if let Some(p) = d1.keys().find(|p| p.ends_with(".copia-tmp")) { return Some(format!("{tag} a staging file remains after a successful run: `{}` (C04)", shown(p))); }
+    for p in want.keys().chain(d1.keys()) {
+        match (want.get(p), d1.get(p)) {
+            (Some(w), Some(g)) if w == g => {}
+            (Some(w), Some(g)) if w.0 == g.0 => return Some(format!("{tag} `{}` has the planned bytes but mtime {} instead of {} (C04/C14)", shown(p), g.1, w.1)),
+            (Some(_), Some(_)) => return Some(format!("{tag} `{}` at the destination does not hold what the plan says (a file the quick check matched must be left as it was; a planned file must be byte-identical) (C04)", shown(p))),
+            (Some(_), None) => return Some(format!("{tag} `{}` should be at the destination after the run and is not (C04)", shown(p))),
+            (None, Some(_)) => return Some(format!("{tag} `{}` should have been removed by --delete (or never created) and is there (C04)", shown(p))),
+            (None, None) => {}
+        }
+    }
+    let by: Vec<String> = ["line", "stale.txt"].iter().filter(|f| std::fs::read(cwd.join(f)).ok().as_deref() != Some(b"bystander")).map(|f| f.to_string()).collect();
+    if !by.is_empty() { return Some(format!("{tag} files OUTSIDE the destination tree were touched: {by:?} in the working directory of the (remote) command are gone or changed (C04)")); }
+    None
+}
+pub fn plan_search(as_twin: bool) -> i32 {
+    if std::env::var("COPIA_BIN").unwrap_or_default().is_empty() { eprintln!("COPIA_BIN not set"); if as_twin { println!("CASES 0"); } return 0; }
+    let mut cases = 0;
+    for (di, dir) in DIRS.iter().enumerate() { for fi in 0..flag_sets().len() {
+        cases += 1;
+        if let Some(what) = delivers_plan(dir, fi) { println!("WITNESS {{\"kind\":\"oneway-plan\",\"dir\":{di},\"flags\":{fi},\"what\":\"{}\"}}", what.replace('"', "'").replace('\n', " ")); }
+    } }
+    if as_twin { println!("CASES {cases}"); }
+    0
+}
+pub fn run_plan(w: &str) -> i32 {
+    let dir = DIRS[(json_u64(w, "dir").unwrap_or(0) as usize).min(2)]; let fi = json_u64(w, "flags").unwrap_or(0) as usize;
+    match delivers_plan(dir, fi) { Some(what) => { println!("REPRODUCED: {what}"); 1 } None => { println!("not reproduced: direction {dir}, flag set {fi}: the destination is exactly the plan"); 0 } }
+}
+
 /// C14: right after a successful run, the same command again transfers nothing and changes nothing (bytes and whole-second
 /// mtimes), in this direction. Source mtimes include a sub-second part, the epoch itself and a far-future value.
 pub fn second_run_is_noop(dir: &str) -> Option<String> {
